@@ -1,12 +1,17 @@
 package main
 
 import (
+	"bytes"
+	"encoding/json"
+	"encoding/xml"
 	"fmt"
 	"math/rand"
+	"mime/multipart"
 	"net/http"
 	"net/http/httptest"
 	"net/url"
 	"reflect"
+	"sort"
 	"strconv"
 	"strings"
 
@@ -49,9 +54,21 @@ type c09C struct {
 	Count int    `query:"count" form:"count" param:"count"`
 }
 
+type c09D struct {
+	PID   *int      `query:"pid" form:"pid" param:"pid" header:"X-Pid"`
+	PName *string   `query:"pname" header:"X-Pname"`
+	PTags *[]string `form:"ptags" query:"ptags"`
+	Plain *string
+	Inner *c09Inner // (not anonymous, no tag: a nil pointer to a struct is not descended into)
+	Count int       `query:"count" form:"count" header:"X-Count"`
+}
+
 var c09Sources = []string{"param", "query", "form", "header"}
 
 func c09TypeSx(t reflect.Type) Sx {
+	if t.Kind() == reflect.Ptr && t.Elem().Kind() != reflect.Struct {
+		t = t.Elem()
+	}
 	switch t.Kind() {
 	case reflect.Struct:
 		var fs []Sx
@@ -84,6 +101,8 @@ func c09Preset(v reflect.Value) {
 			continue
 		}
 		switch f.Kind() {
+		case reflect.Ptr:
+			// stays nil
 		case reflect.Struct:
 			c09Preset(f)
 		case reflect.String:
@@ -104,6 +123,33 @@ func c09Collect(v reflect.Value, pre []int, out *[]Sx, flat map[string][]string)
 		p := append(append([]int(nil), pre...), i)
 		var vals []string
 		changed := false
+		if f.Kind() == reflect.Ptr {
+			if f.IsNil() || f.Elem().Kind() == reflect.Struct {
+				continue
+			}
+			// an allocated pointer: the pointee's value (a fresh zero value counts as bound)
+			f = f.Elem()
+			switch f.Kind() {
+			case reflect.String:
+				changed, vals = true, []string{f.String()}
+			case reflect.Int:
+				changed, vals = true, []string{strconv.FormatInt(f.Int(), 10)}
+			case reflect.Slice:
+				changed = true
+				for j := 0; j < f.Len(); j++ {
+					vals = append(vals, fmt.Sprint(f.Index(j).Interface()))
+				}
+			}
+			if changed {
+				var ps []Sx
+				for _, x := range p {
+					ps = append(ps, I(x))
+				}
+				*out = append(*out, L(L(ps...), LS(vals)))
+				flat[fmt.Sprint(p)] = vals
+			}
+			continue
+		}
 		switch f.Kind() {
 		case reflect.Struct:
 			c09Collect(f, p, out, flat)
@@ -143,6 +189,13 @@ func c09Expect(t reflect.Type, pre []int, sources []map[string][]string, srcIdx 
 			c09Expect(f.Type, p, sources, srcIdx, exp, bad)
 			continue
 		}
+		ft := f.Type
+		if ft.Kind() == reflect.Ptr {
+			if ft.Elem().Kind() == reflect.Struct {
+				continue
+			}
+			ft = ft.Elem()
+		}
 		for k, data := range sources {
 			tag := f.Tag.Get(c09Sources[srcIdx[k]])
 			if tag == "" || len(data) == 0 {
@@ -159,9 +212,9 @@ func c09Expect(t reflect.Type, pre []int, sources []map[string][]string, srcIdx 
 			if !okv || len(vals) == 0 {
 				continue
 			}
-			isInt := f.Type.Kind() == reflect.Int || f.Type.Kind() == reflect.Slice && f.Type.Elem().Kind() == reflect.Int
+			isInt := ft.Kind() == reflect.Int || ft.Kind() == reflect.Slice && ft.Elem().Kind() == reflect.Int
 			use := vals
-			if f.Type.Kind() != reflect.Slice {
+			if ft.Kind() != reflect.Slice {
 				use = vals[:1]
 			}
 			if isInt {
@@ -176,16 +229,25 @@ func c09Expect(t reflect.Type, pre []int, sources []map[string][]string, srcIdx 
 	}
 }
 
+func keysOfAny(d map[string]interface{}) []string {
+	var ks []string
+	for k := range d {
+		ks = append(ks, k)
+	}
+	sort.Strings(ks)
+	return ks
+}
+
 func genC09(rng *rand.Rand, n int, emit func(Case), dist map[string]int) {
 	e := echo.New()
-	shapes := []func() interface{}{func() interface{} { return &c09A{} }, func() interface{} { return &c09B{} }, func() interface{} { return &c09C{} }}
+	shapes := []func() interface{}{func() interface{} { return &c09A{} }, func() interface{} { return &c09B{} }, func() interface{} { return &c09C{} }, func() interface{} { return &c09D{} }}
 	keyPool := []string{"id", "ID", "Id", "name", "Name", "NAME", "admin", "Admin", "role", "Role", "secret", "tags", "Tags", "city", "City", "zip", "Zip", "plain", "Plain",
-		"token", "X-Token", "level", "Level", "owner", "Owner", "nums", "hidden", "Hidden", "q", "Q", "mixed", "Mixed", "count", "Count", "other", "Addr", "addr.city", "c09Embedded", "Token", "", "", " ", "id[]", "Id[]", "name[]", "tags[]", "nums[]", "X-Token[]", "q[]"}
+		"token", "X-Token", "level", "Level", "owner", "Owner", "nums", "hidden", "Hidden", "q", "Q", "mixed", "Mixed", "count", "Count", "pid", "Pid", "pname", "ptags", "PTags", "X-Pid", "X-Pname", "X-Count", "other", "Addr", "addr.city", "c09Embedded", "Token", "", "", " ", "id[]", "Id[]", "name[]", "tags[]", "nums[]", "X-Token[]", "q[]"}
 	vals := func(key string, k int) []string {
 		var out []string
 		for i := 0; i < k; i++ {
 			lk := strings.ToLower(key)
-			if lk == "id" || lk == "zip" || lk == "level" || lk == "nums" || lk == "count" {
+			if lk == "id" || lk == "zip" || lk == "level" || lk == "nums" || lk == "count" || lk == "pid" || lk == "x-pid" || lk == "x-count" {
 				v := strconv.Itoa(1 + rng.Intn(900))
 				if rng.Intn(25) == 0 {
 					v = "x" + v // malformed number
@@ -237,13 +299,74 @@ func genC09(rng *rand.Rand, n int, emit func(Case), dist map[string]int) {
 		c09Preset(reflect.ValueOf(dst).Elem())
 		method := []string{"GET", "POST", "PUT", "DELETE", "HEAD", "OPTIONS", "REPORT", "GET", "POST"}[rng.Intn(9)]
 		params, query, form := genData(), genData(), genData()
-		bodyKind := rng.Intn(7) // 0,1 none; 2,3 form; 4 malformed form; 5 unsupported; 6 form
+		bodyKind := rng.Intn(11) // 0,1 none; 2,3 form; 4 malformed form; 5 unsupported; 6 form; 7 JSON; 8 JSON with an error; 9 XML; 10 multipart form
+		if rng.Intn(10) == 0 {
+			// ---------------- BindHeaders: the header source on its own
+			hdrs := genData()
+			req := httptest.NewRequest("GET", "/", nil)
+			canon := map[string][]string{}
+			for k, v := range hdrs {
+				if k == "" || strings.ContainsAny(k, " []") {
+					continue
+				}
+				for _, x := range v {
+					req.Header.Add(k, x)
+				}
+				canon[http.CanonicalHeaderKey(k)] = req.Header.Values(k)
+			}
+			c := recycledContext(e, req, httptest.NewRecorder())
+			err := (&echo.DefaultBinder{}).BindHeaders(c, dst)
+			status := 0
+			if err != nil {
+				status = 500
+				if he, isHE := err.(*echo.HTTPError); isHE {
+					status = he.Code
+				}
+			}
+			var got []Sx
+			flat := map[string][]string{}
+			c09Collect(reflect.ValueOf(dst).Elem(), nil, &got, flat)
+			exp := map[string][]string{}
+			bad := false
+			c09Expect(reflect.TypeOf(dst).Elem(), nil, []map[string][]string{canon}, []int{3}, exp, &bad)
+			ok, why := true, ""
+			switch {
+			case bad && status != 400:
+				ok, why = false, fmt.Sprintf("BindHeaders: a value that fails conversion was answered %d, not 400", status)
+			case !bad && status != 0:
+				ok, why = false, fmt.Sprintf("BindHeaders: well-formed headers rejected with %d: %v", status, err)
+			case status == 0:
+				for p, v := range flat {
+					if w, has := exp[p]; !has {
+						ok, why = false, fmt.Sprintf("BindHeaders: field at path %s was set to %q although it carries no header tag naming a header that was sent (headers %v)", p, v, canon)
+					} else if fmt.Sprint(w) != fmt.Sprint(v) {
+						ok, why = false, fmt.Sprintf("BindHeaders: field at path %s holds %q, the header gives %q", p, v, w)
+					}
+				}
+				for p, w := range exp {
+					if _, has := flat[p]; !has {
+						ok, why = false, fmt.Sprintf("BindHeaders: field at path %s should have been bound to %q", p, w)
+					}
+				}
+			}
+			out := L(I(0), I(status))
+			if status == 0 {
+				out = L(I(1), L(got...))
+			}
+			in := L(c09TypeSx(reflect.TypeOf(dst).Elem()), S("#HEADERS"), dataSx(canon, keysOf(canon)), L(), L(I(0)))
+			emit(Case{In: in, Out: out, Ok: ok, Why: why, Key: Show(in),
+				Human: fmt.Sprintf("%T BindHeaders headers=%v -> status=%d bound=%s", dst, canon, status, Show(L(got...)))})
+			dist["bind_headers_cases"]++
+			continue
+		}
 		target := "/"
 		if len(query) > 0 {
 			target += "?" + url.Values(query).Encode()
 		}
 		var req *http.Request
 		bodySx := L(I(0))
+		oracleErr := false
+		oracleWrites := map[string][]string{}
 		switch bodyKind {
 		case 2, 3, 6:
 			if len(form) == 0 {
@@ -263,6 +386,93 @@ func genC09(rng *rand.Rand, n int, emit func(Case), dist map[string]int) {
 				"application/json-seq; charset=utf-8", "application/xml-dtd", "text/xml-external-parsed-entity", "application/x-www-form-urlencoded-v2", "multipart/form-data-x; boundary=b",
 				"application/x-www-form-urlencodedx", "text/xmlx"}[rng.Intn(13)])
 			bodySx = L(I(3))
+		case 7, 8, 9:
+			// JSON / XML bodies: the decoder is the oracle - what it sets on a fresh, pre-set destination is what the
+			// body contributes (after path and query)
+			fresh := reflect.New(reflect.TypeOf(dst).Elem()).Interface()
+			c09Preset(reflect.ValueOf(fresh).Elem())
+			obj := map[string]interface{}{}
+			for k, v := range genData() {
+				if k == "" || strings.ContainsAny(k, " []") {
+					continue
+				}
+				lk := strings.ToLower(k)
+				switch {
+				case lk == "id" || lk == "zip" || lk == "level" || lk == "count" || lk == "pid":
+					n, perr := strconv.Atoi(v[0])
+					if perr != nil {
+						obj[k] = v[0] // a string where a number is expected: a type error
+					} else {
+						obj[k] = n
+					}
+				case lk == "tags" || lk == "ptags" || lk == "nums":
+					obj[k] = v
+				case lk == "admin":
+					obj[k] = true
+				default:
+					obj[k] = v[0]
+				}
+			}
+			var raw []byte
+			ctype := ""
+			var derr error
+			if bodyKind == 9 {
+				var sb strings.Builder
+				sb.WriteString("<doc>")
+				for _, k := range keysOfAny(obj) {
+					if s, isStr := obj[k].(string); isStr && !strings.ContainsAny(k, ".-") {
+						fmt.Fprintf(&sb, "<%s>%s</%s>", k, s, k)
+					} else if n, isInt := obj[k].(int); isInt {
+						fmt.Fprintf(&sb, "<%s>%d</%s>", k, n, k)
+					}
+				}
+				sb.WriteString("</doc>")
+				raw = []byte(sb.String())
+				if rng.Intn(8) == 0 {
+					raw = raw[:len(raw)-3] // truncated document
+				}
+				ctype = []string{echo.MIMEApplicationXML, echo.MIMETextXML, echo.MIMEApplicationXMLCharsetUTF8}[rng.Intn(3)]
+				derr = xml.NewDecoder(bytes.NewReader(raw)).Decode(fresh)
+			} else {
+				raw, _ = json.Marshal(obj)
+				if bodyKind == 8 {
+					switch rng.Intn(3) {
+					case 0:
+						raw = raw[:len(raw)/2] // truncated
+					case 1:
+						raw = []byte(`{"id":"not-a-number","count":"x","pid":"y","Zip":"z","level":{}}`)
+					default:
+						raw = []byte(`[1,2,3]`)
+					}
+				}
+				ctype = []string{echo.MIMEApplicationJSON, echo.MIMEApplicationJSON + "; charset=utf-8", "application/json;charset=UTF-8"}[rng.Intn(3)]
+				derr = json.NewDecoder(bytes.NewReader(raw)).Decode(fresh)
+			}
+			req = httptest.NewRequest(method, target, bytes.NewReader(raw))
+			req.Header.Set(echo.HeaderContentType, ctype)
+			form = nil
+			if derr != nil {
+				bodySx, oracleErr = L(I(5)), true
+			} else {
+				var ws []Sx
+				c09Collect(reflect.ValueOf(fresh).Elem(), nil, &ws, oracleWrites)
+				bodySx = L(I(4), L(ws...))
+			}
+		case 10:
+			if len(form) == 0 {
+				form["other"] = []string{"x"}
+			}
+			var mb bytes.Buffer
+			mw := multipart.NewWriter(&mb)
+			for _, k := range keysOf(form) {
+				for _, v := range form[k] {
+					mw.WriteField(k, v)
+				}
+			}
+			mw.Close()
+			req = httptest.NewRequest(method, target, &mb)
+			req.Header.Set(echo.HeaderContentType, mw.FormDataContentType())
+			bodySx = L(I(1), dataSx(form, keysOf(form))) // the multipart values only: the URL query is not merged in
 		default:
 			req = httptest.NewRequest(method, target, nil)
 			form = nil
@@ -350,10 +560,16 @@ func genC09(rng *rand.Rand, n int, emit func(Case), dist map[string]int) {
 		exp := map[string][]string{}
 		bad := false
 		c09Expect(reflect.TypeOf(dst).Elem(), nil, srcs, idx, exp, &bad)
+		for p, v := range oracleWrites {
+			exp[p] = v // the body comes last
+		}
 		ok, why := true, ""
 		switch {
 		case panicked:
 			ok, why = false, "Bind panicked"
+		case oracleErr && status != 400:
+			ok, why = false, fmt.Sprintf("a JSON/XML body the decoder rejects was answered %d, not 400", status)
+		case oracleErr:
 		case bodyKind == 5 && status != 415 && !bad:
 			ok, why = false, fmt.Sprintf("non-empty body of unsupported type answered %d, not 415", status)
 		case bodyKind == 4 && status != 400 && !bad:
